@@ -95,3 +95,111 @@ def canonicalise(tree: ast.Module) -> ast.Module:
     tree = _Canon().visit(tree)
     ast.fix_missing_locations(tree)
     return tree
+
+
+# ---------------------------------------------------------------------------------------------------------------------
+# Local variable names.  Consistently renaming the plain locals of a function is an equivalence of programs, so the
+# Model may pick the names.  It picks the ones recorded in sa/localnames.json (the names the functions had when the rules
+# were written) whenever a function has the same number of plain locals, bound in the same order; otherwise the function
+# is left as it is.  The choice has no influence on soundness (any capture-free bijection is an equivalent program), only
+# on whether rules that mention a local by name recognise the code after someone renamed it.
+
+# comprehensions are entered: renaming an identifier in the function and in its comprehensions alike renames the function's
+# variable and the comprehension's own variable of that name consistently, which is again an equivalent program
+_SCOPES = (ast.FunctionDef, ast.AsyncFunctionDef, ast.Lambda, ast.ClassDef)
+
+
+def _own_nodes(fnode):
+    """nodes of the function's own scope, in source order; nested scopes are returned as single nodes (not entered)"""
+    out = []
+
+    def rec(n):
+        for c in ast.iter_child_nodes(n):
+            out.append(c)
+            if not isinstance(c, _SCOPES):
+                rec(c)
+
+    rec(fnode)
+    out.sort(key=lambda n: (getattr(n, "lineno", 0), getattr(n, "col_offset", 0)))
+    return out
+
+
+def plain_locals(fnode) -> list:
+    """the function's plain local variables in order of first binding: assigned in its own scope, not a parameter, not
+    global/nonlocal, not mentioned in any nested scope, not bound by except/import/match/def"""
+    a = fnode.args
+    params = {x.arg for x in a.posonlyargs + a.args + a.kwonlyargs} | {x.arg for x in (a.vararg, a.kwarg) if x}
+    own = _own_nodes(fnode)
+    special, nested_names = set(), set()
+    for n in own:
+        if isinstance(n, ast.ExceptHandler) and n.name:
+            special.add(n.name)
+        if isinstance(n, (ast.MatchAs, ast.MatchStar)) and n.name:
+            special.add(n.name)
+        if isinstance(n, ast.MatchMapping) and n.rest:
+            special.add(n.rest)
+        if isinstance(n, (ast.Import, ast.ImportFrom)):
+            special.update((al.asname or al.name).split(".")[0] for al in n.names)
+        if isinstance(n, (ast.Global, ast.Nonlocal)):
+            special.update(n.names)
+        if isinstance(n, (ast.FunctionDef, ast.AsyncFunctionDef, ast.ClassDef)):
+            special.add(n.name)
+        if isinstance(n, _SCOPES):
+            nested_names.update(x.id for x in ast.walk(n) if isinstance(x, ast.Name))
+            nested_names.update(x.arg for x in ast.walk(n) if isinstance(x, ast.arg))
+        if isinstance(n, ast.Call) and isinstance(n.func, ast.Name) and n.func.id in ("locals", "vars", "eval", "exec"):
+            return []
+    order = []
+    for n in own:
+        if isinstance(n, ast.Name) and not isinstance(n.ctx, ast.Load):
+            nm = n.id
+            if nm not in params and nm not in special and nm not in nested_names and not nm.startswith("__") and nm not in order:
+                order.append(nm)
+    return order
+
+
+def _functions(tree):
+    """(key, node) for every function of the module; key = dotted path of enclosing classes/functions + ordinal"""
+    seen = {}
+    out = []
+
+    def rec(n, prefix):
+        for c in ast.iter_child_nodes(n):
+            if isinstance(c, (ast.FunctionDef, ast.AsyncFunctionDef)):
+                q = f"{prefix}{c.name}"
+                k = seen.get(q, 0)
+                seen[q] = k + 1
+                out.append((f"{q}#{k}", c))
+                rec(c, q + ".")
+            elif isinstance(c, ast.ClassDef):
+                rec(c, f"{prefix}{c.name}.")
+            else:
+                rec(c, prefix)
+
+    rec(tree, "")
+    return out
+
+
+def local_name_table(tree) -> dict:
+    return {key: plain_locals(f) for key, f in _functions(tree) if plain_locals(f)}
+
+
+def alpha_normalise(tree: ast.Module, reference: dict) -> int:
+    """rename the plain locals of each function to the reference names where that is a capture-free bijection; returns
+    the number of functions renamed"""
+    n = 0
+    for key, f in _functions(tree):
+        want = reference.get(key)
+        have = plain_locals(f)
+        if not want or have == want or len(have) != len(want) or len(set(want)) != len(want):
+            continue
+        others = {x.id for x in ast.walk(f) if isinstance(x, ast.Name)} | {x.arg for x in ast.walk(f) if isinstance(x, ast.arg)}
+        others -= set(have)
+        if others & set(want):
+            continue  # a reference name is in use for something else here: leave the function alone
+        mapping = dict(zip(have, want))
+        for x in _own_nodes(f):
+            if isinstance(x, ast.Name) and x.id in mapping:
+                x.id = mapping[x.id]
+        n += 1
+    return n
